@@ -19,6 +19,17 @@ Objects (all from `PersimVerif/Model/PLBase.lean` and `PersimVerif/Model/Landsca
 `certify_sound` turns every `T` answered by the checker into "equal at **every** `t` and **every** depth".
 The statements hold over any linear ordered field `K` (in particular ℚ, where the driver computes on the
 exact rational values of the floats, and ℝ).  Nothing here is about floating point.
+
+Theorems (all full strength, none `_partial`):
+* checker: `certifyTol_sound`, `certify_sound` (+ `_pos`), `certify_beyond_last`, `certify_ordered_vanishing`;
+* constructor glue: `hom_deg_selects`, `hom_deg_ignores_others`, `constructor_rejects`,
+  `trailing_inf_removed`, `trailing_inf_same_landscape`, `inner_inf_not_removed`, `exact_never_fuel`;
+* known finding: `shortcut_model_output`, `known_landscape_value`, `shortcut_counterexample`,
+  `certify_rejects_shortcut_output`, `noShortcut_on_known`;
+* the sweep for every diagram: `sweep_returns`, `sweepNoShortcut_correct`, `sweep_correct_of_not_fired`,
+  `exact_correct_of_not_fired`.
+What is *not* a theorem: that the real Python code equals the model (sampled correspondence, every run),
+and anything about float rounding.
 -/
 set_option linter.unusedSectionVars false
 
@@ -332,8 +343,14 @@ theorem exact_correct_of_not_fired (dgms : List (List (K × Option K))) (h : Int
 
 end Sweep
 
-/-- non-vacuity: a diagram with nested, touching, equal-birth and equal-death bars on which the shortcut
-    does not fire -/
+/-- non-vacuity: bars of positive length … -/
+example : ∀ p ∈ ([(0, 6), (0, 4), (2, 6), (1, 5), (6, 8)] : List (ℚ × ℚ)), p.1 < p.2 := by decide
+
+/-- … selected by the constructor from several diagrams, with a trailing infinite bar … -/
+example : selectBars (α := ℚ) [[(9, some 10)], [(0, some 6), (0, some 4), (2, some 6), (1, some 5), (6, some 8), (0, none)]] 1
+    = .ok [(0, 6), (0, 4), (2, 6), (1, 5), (6, 8)] := by decide +kernel
+
+/-- … nested, touching, equal-birth and equal-death bars on which the shortcut does not fire -/
 example : (sweep (α := ℚ) [(0, 6), (0, 4), (2, 6), (1, 5), (6, 8)]).map (fun o => o.fired) = some 0 := by
   decide +kernel
 
